@@ -41,6 +41,9 @@ enum Park {
     /// in flight under an ID from the pen (PEN + token + 1); finish()ed at the very end, when the first
     /// page's ID may belong to someone else: only the second page's ID may be released
     PagedLater,
+    /// streaming search (k entries read) that is abandoned through another handle while parked (its ID
+    /// is free from then on); its reader comes back at the very end, gets the error and finish()es
+    AbandonedStream(usize),
 }
 
 /// IDs far away from both ends of the range, used for the second page of `Park::PagedLater`.
@@ -96,7 +99,7 @@ async fn wrap_server(mut server: pipe::ServerEnd, log: Arc<Mutex<Vec<(u64, i64, 
 fn run_wrap_case(i: u64, pattern: u32, k_below: i32, rng: &mut Rng, rep: &mut Report, verbose: bool) {
     // IDs 1..4 and MAX-3..MAX; bit b of `pattern` says whether slot b is parked
     let slots: Vec<i32> = vec![1, 2, 3, 4, MAX - 3, MAX - 2, MAX - 1, MAX];
-    let parked: Vec<(i32, Park)> = slots.iter().enumerate().filter(|(b, _)| pattern >> b & 1 == 1).map(|(_, id)| (*id, match rng.below(7) { 0 | 1 => Park::Single, 2 | 3 => Park::Stream(rng.usize(3)), 4 => Park::DoneStream, 5 => Park::TimedOutStream, _ => Park::PagedLater })).collect();
+    let parked: Vec<(i32, Park)> = slots.iter().enumerate().filter(|(b, _)| pattern >> b & 1 == 1).map(|(_, id)| (*id, match rng.below(8) { 0 | 1 => Park::Single, 2 | 3 => Park::Stream(rng.usize(3)), 4 => Park::DoneStream, 5 => Park::TimedOutStream, 6 => Park::AbandonedStream(rng.usize(3)), _ => Park::PagedLater })).collect();
     let n_ops = (2 * k_below + 8) as usize;
     // 0 = answered at once, 1 = left pending, 2 = an operation that times out at once followed, without
     // yielding to the driver, by a new pending operation for which the timed-out ID is the next candidate
@@ -116,6 +119,8 @@ fn run_wrap_case(i: u64, pattern: u32, k_below: i32, rng: &mut Rng, rep: &mut Re
         let mut done_streams = vec![];
         let mut paged_streams = vec![];
         let mut paged_toks: Vec<u64> = vec![];
+        let mut abandoned_streams = vec![];
+        let mut abandoned_toks: Vec<u64> = vec![];
         let mut probes: Vec<(i32, i32, String)> = vec![];
         let mut tok = 1u64;
         let mut events: Vec<(String, u64, i32, Vec<i32>)> = vec![]; // (what, token, last_after, inuse_after)
@@ -137,6 +142,22 @@ fn run_wrap_case(i: u64, pattern: u32, k_below: i32, rng: &mut Rng, rep: &mut Re
                     }
                     world::settle().await;
                     keep.push(Box::new(st));
+                }
+                Park::AbandonedStream(k) => {
+                    let mut l = ldap.clone();
+                    let base = format!("op={},b=e{}", tok, k);
+                    let mut st = l.streaming_search(&base, Scope::Base, "(a=b)", vec!["*"]).await.expect("park stream to abandon");
+                    for _ in 0..*k {
+                        let _ = st.next().await;
+                    }
+                    world::settle().await;
+                    let t = ldap.verif_id_table();
+                    events.push(("park".into(), tok, t.0, t.1));
+                    let mut la = ldap.clone();
+                    let _ = invoke(&mut la, &Call::Abandon(*id)).await;
+                    world::settle().await;
+                    abandoned_streams.push(st);
+                    abandoned_toks.push(tok);
                 }
                 Park::TimedOutStream => {
                     let mut l = ldap.clone();
@@ -173,7 +194,7 @@ fn run_wrap_case(i: u64, pattern: u32, k_below: i32, rng: &mut Rng, rep: &mut Re
                 }
             }
             let t = ldap.verif_id_table();
-            events.push((match kind { Park::DoneStream | Park::TimedOutStream => "park-done".into(), Park::PagedLater => "park-paged-2".into(), _ => "park".into() }, tok, t.0, t.1));
+            events.push((match kind { Park::DoneStream | Park::TimedOutStream => "park-done".into(), Park::PagedLater => "park-paged-2".into(), Park::AbandonedStream(_) => "abandoned".into(), _ => "park".into() }, tok, t.0, t.1));
             tok += 1;
         }
         // position the counter below the wrap point and issue operations
@@ -217,8 +238,32 @@ fn run_wrap_case(i: u64, pattern: u32, k_below: i32, rng: &mut Rng, rep: &mut Re
             }
             tok += 1;
         }
+        // a handle whose last operation completed long ago issues an Abandon that times out at once, while
+        // the ID of that last operation belongs to a new, pending operation
+        let p_last = main.last_id();
+        if p_last > 0 && !ldap.verif_id_table().1.contains(&p_last) {
+            ldap.verif_set_last_id(if p_last == 1 { MAX } else { p_last - 1 });
+            let mut l = ldap.clone();
+            let dn = format!("op={},b=silent", tok);
+            keep.push(Box::new(tokio::spawn(async move { invoke(&mut l, &Call::Delete { dn }).await })));
+            world::settle().await;
+            let t = ldap.verif_id_table();
+            events.push(("issue-pending-on-a-recycled-id".into(), tok, t.0, t.1));
+            tok += 1;
+            main.with_timeout(std::time::Duration::ZERO);
+            let _ = invoke(&mut main, &Call::Abandon(1_234_567)).await;
+            world::settle().await;
+            let t = ldap.verif_id_table();
+            events.push(("abandon".into(), 0, t.0, t.1));
+        }
+        let _ = tok;
         // now finish() the streams that ended long ago: nothing may change for anybody else
-        if !done_streams.is_empty() || !paged_streams.is_empty() {
+        if !done_streams.is_empty() || !paged_streams.is_empty() || !abandoned_streams.is_empty() {
+            for st in abandoned_streams.iter_mut() {
+                // the reader comes back and learns that its search is gone
+                let _ = st.next().await;
+                let _ = st.finish().await;
+            }
             for st in done_streams.iter_mut() {
                 let _ = st.finish().await;
             }
@@ -239,7 +284,7 @@ fn run_wrap_case(i: u64, pattern: u32, k_below: i32, rng: &mut Rng, rep: &mut Re
             for (t, id, _) in lg.iter() {
                 let nth = seen_tok.entry(*t).or_insert(0);
                 *nth += 1;
-                let paged = paged_toks.contains(t);
+                let paged = paged_toks.contains(t) || abandoned_toks.contains(t) || *t == 0;
                 // paged streams: both pages are over (page 1 ended, page 2 was finished above)
                 if answered_or_done.contains(t) || paged || *t >= 1_000_000 {
                     continue;
@@ -310,6 +355,34 @@ fn run_wrap_case(i: u64, pattern: u32, k_below: i32, rng: &mut Rng, rep: &mut Re
             inuse.remove(&id);
             last = PEN + *tok as i32;
         }
+        if what == "abandoned" {
+            // the parked stream was abandoned: the Abandon took the next ID for a moment, the stream's ID is free
+            let id = parked.iter().find(|(pid, _)| parked_tok.get(pid) == Some(tok)).map(|p| p.0).unwrap_or(0);
+            let a = model_next(last, &inuse);
+            last = a;
+            inuse.remove(&id);
+            outstanding.remove(&(id as i64));
+            let model_inuse: Vec<i32> = inuse.iter().copied().collect();
+            if *last_after != last || inuse_after != &model_inuse {
+                rep.count("quiescent_points_where_the_table_differs_from_the_model(not judged)", 1);
+            }
+            continue;
+        }
+        if what == "abandon" {
+            last = model_next(last, &inuse);
+            let model_inuse: Vec<i32> = inuse.iter().copied().collect();
+            if *last_after != last || inuse_after != &model_inuse {
+                rep.count("quiescent_points_where_the_table_differs_from_the_model(not judged)", 1);
+            }
+            continue;
+        }
+        if what == "issue-pending-on-a-recycled-id" {
+            // the harness put the counter just below the ID in question
+            last = *last_after - 1;
+            if last == 0 {
+                last = MAX;
+            }
+        }
         let mut timed_out_id: Option<i32> = None;
         if what == "issue-after-timeout" {
             // the timed-out operation took the next ID and still holds it when its successor allocates
@@ -334,7 +407,7 @@ fn run_wrap_case(i: u64, pattern: u32, k_below: i32, rng: &mut Rng, rep: &mut Re
                     rep.count("allocations_differing_from_the_reference_allocator(not judged)", 1);
                 }
                 match what.as_str() {
-                    "park" | "park-paged-2" | "issue-pending" | "issue-after-timeout" => {
+                    "park" | "park-paged-2" | "issue-pending" | "issue-after-timeout" | "issue-pending-on-a-recycled-id" => {
                         outstanding.insert(g);
                     }
                     _ => {}
